@@ -37,7 +37,7 @@ BINDING = {"assign", "assign_noread", "assign_nl", "aug", "walrus", "for", "def"
            "global_aug", "nonlocal_assign", "nonlocal_read", "nonlocal_aug", "param", "param_nl",
            "param_default", "kwonly", "vararg", "walrus_nonlocal", "for_nonlocal", "target", "target_tuple",
            "param_default_same", "lam_vararg", "lam_kwarg", "lam_kwonly", "lam_posonly", "param_same", "kwonly_same",
-           "lam_kwonly_same", "walrus_in_comp"}
+           "lam_kwonly_same", "walrus_in_comp", "cond_untaken", "cond_taken", "loop_zero"}
 
 
 def nontrivial(tree):
